@@ -64,6 +64,11 @@ type sut struct {
 	m    *model
 	hash uint64
 	enum int
+	// quiet > 0: no observing call (Len, Contains, enumeration) is made for that
+	// many operations; only the operations' own results are compared. Observation
+	// is not side-effect free in every implementation (caches, lazy counters).
+	quiet     int
+	quietCase bool
 }
 
 func (s *sut) note(op byte, x uint32) { s.hash = ev.Mix(s.hash, uint64(op), uint64(x)) }
@@ -107,6 +112,9 @@ func (s *sut) remove(x uint32) bool {
 }
 
 func (s *sut) contains(x uint32) bool {
+	if s.quiet > 0 {
+		return true
+	}
 	_, want := s.m.m[x]
 	var got bool
 	if !s.c.Guard("Contains", func() { got = s.r.Contains(x) }) {
@@ -121,6 +129,22 @@ func (s *sut) contains(x uint32) bool {
 }
 
 func (s *sut) lenOK() bool {
+	if s.quiet > 0 {
+		s.quiet--
+		s.c.Add("observations_deferred", 1)
+		if s.quiet == 0 {
+			s.c.Add("quiet_windows_closed", 1)
+			return s.lenNow() && s.enumerate()
+		}
+		return true
+	}
+	if s.quietCase && s.c.Rng.Chance(1, 40) {
+		s.quiet = s.c.Rng.Range(2, 8)
+	}
+	return s.lenNow()
+}
+
+func (s *sut) lenNow() bool {
 	var n int
 	if !s.c.Guard("Len", func() { n = s.r.Len() }) {
 		return false
@@ -153,6 +177,9 @@ func firstDiff(got, want []uint32) string {
 
 // enumerate compares Iter, Range and All with the model, plus early termination.
 func (s *sut) enumerate() bool {
+	if s.quiet > 0 {
+		return true
+	}
 	want := s.m.list()
 	limit := len(want) + 3
 	s.enum++
@@ -245,7 +272,7 @@ var hiPool = []uint16{0, 1, 2, 0x7FFF, 0x8000, 0xFFFF, 0xFFFE, 3}
 func mixCase(c *ev.Case) {
 	rng := c.Rng
 	var rb setz.RoaringBitmap
-	s := &sut{c: c, r: &rb, m: newModel()}
+	s := &sut{c: c, r: &rb, m: newModel(), quietCase: rng.Chance(1, 3)}
 	nb := rng.Range(1, 6)
 	perm := rng.Perm(len(hiPool))
 	his := make([]uint16, nb)
@@ -306,6 +333,10 @@ func mixCase(c *ev.Case) {
 				return
 			}
 		}
+	}
+	s.quiet = 0
+	if !s.lenNow() || !s.enumerate() {
+		return
 	}
 	if len(s.m.m) > 1 {
 		c.Distinct(s.hash)
@@ -482,5 +513,6 @@ func main() {
 	r.Require("enumerations", 1000)
 	r.Require("bucket_reached_4097", 10)
 	r.Require("bucket_became_empty", 100)
+	r.Require("quiet_windows_closed", 500)
 	r.Finish()
 }
